@@ -44,9 +44,13 @@ def run_case(case):
     env.app = apps.program_app(env, case["programs"], recs)
     del env.escaped[:]
     del env.disp.worker_exc[:]
+    # a slow client: the kernel accepts at most `slow` bytes per send() call
+    slow = case.get("slow")
+    env.S.send_plan = (lambda sock, n: min(n, slow)) if slow else None
     c = env.connect()
     data = b"".join(request_bytes(i, r) for i, r in enumerate(case["requests"]))
     c.send(data)
+    env.S.send_plan = None
     res = dict(wire=c.wire, closed=c.closed, recs=recs, escaped=list(env.escaped), worker_exc=list(env.disp.worker_exc), log=list(env.W.log))
     if not c.closed and c.ch is not None:
         c.ch.handle_close()
@@ -225,6 +229,9 @@ def cases(tier):
             if req["method"] == "POST" and tier == "quick" and prog["delivery"] not in ("list", "fw"):
                 continue
             for depth in (1, 2):
+                if depth == 2 and (tier == "thorough" or prog["delivery"] in ("fw", "fw-offset", "list", "write+list")) and not prog.get("exc"):
+                    probe = dict(method="GET", version=req["version"], conn="keep-alive" if req["version"] == "1.0" else None)
+                    yield dict(requests=[req, probe], programs=[prog, PROBE], logsock=True, slow=7)
                 for logsock in ((True, False) if prog.get("exc") else (True,)):
                     if depth == 1:
                         yield dict(requests=[req], programs=[prog], logsock=logsock)
